@@ -166,6 +166,40 @@ def totality(ctx, rule='C05-R2'):
     f = p.func(FS, rule)
     ctx.check(bool(resets), rule, FS, f.node.name, f.loc(), 'slice ids are not reset to -1 for all rows first',
               instance='find_slices: slice_id := -1 for all rows')
+    # ... and every valid hit gets a slice id whatever the number n of valid hits: the stores to slice_id under the
+    # "valid" mask are guarded by conditions on n that together hold for every n >= 1 (decided by cases n = 1, 2, 3)
+    valid = None
+    labelled = []
+    for e in evs:
+        if e.kind != 'store' or not resets or e.seq <= resets[0].seq:
+            continue
+        tgt = e.target
+        colname = tgt[2][0] if tag(tgt) == 'cols' and len(tgt[2]) == 1 else (tgt[2] if tag(tgt) == 'col' else None)
+        if colname == 'slice_id' and tag(tgt[1]) in ('mask', 'rows') and T.root(tgt) == DATA and e.value != C(-1):
+            labelled.append(e)
+    ctx.floor(rule, 'stores of slice labels to the valid hits', len(labelled), 1)
+    if labelled:
+        def count_terms(g):
+            return [x for x in T.walk(g) if tag(x) == 'call' and x[1] == ('g', 'builtins.len')]
+        counts = {}
+        for e in labelled:
+            for c in count_terms(e.guard):
+                counts[c] = counts.get(c, 0) + 1
+        n_term = max(counts, key=counts.get) if counts else None
+        missing = []
+        for n in (1, 2, 3, 50):
+            ok = False
+            for e in labelled:
+                g = T.subst(e.guard, {n_term: C(n)}) if n_term is not None else e.guard
+                entry = T.subst(resets[0].guard, {n_term: C(n)}) if n_term is not None else resets[0].guard
+                if g != T.FALSE and T.implies(entry, g) is True:
+                    ok = True
+            if not ok:
+                missing.append(n)
+        ctx.check(not missing, rule, FS, labelled[0].node, labelled[0].loc(),
+                  f'with {missing[0] if missing else ""} valid hit(s) no slice label is written: a hit with a valid height '
+                  'keeps slice_id = -1 and belongs to no slice, group or layer',
+                  instance='find_slices: valid hits labelled for every count of valid hits >= 1')
 
 
 def sentinels(ctx, rule='C05-R3'):
